@@ -5,7 +5,7 @@
  *   schema <yang-hex>+               load the modules into a fresh context
  *                                      -> ok <schema-ser input view> <schema-ser output view> <typed schema-ser input view>
  *                                            <typed schema-ser output view> <type descriptors> | err Schema
- *                                    typed: a leaf / leaf-list carries `#<n>`, the index of its type in the `;`-separated descriptor
+ *                                    typed: a leaf / leaf-list carries `#<n>`, the index of its type in the `~`-separated descriptor
  *                                    list, computed from the compiled lysc_type (`?` = outside the modelled types)
  *   tree <kind> <xml-hex>            kind = data | rpc | reply | notif; parse (no validation)
  *                                      -> ok <n-nodes> <tree-ser> <n-nodes with the default flag> <tree-ser with value keys> | err Parse
@@ -141,9 +141,36 @@ type_desc(struct sb *s, const struct lysc_type *t, const struct lysc_node *leaf,
     }
     case LY_TYPE_STRING: {
         const struct lysc_type_str *st = (const struct lysc_type_str *)t;
-        if (st->patterns) return 0;
+        if (st->patterns) {
+            static const char *hexfam[] = {"hex-string", "mac-address", "phys-address", "uuid", "date-and-time", NULL};
+            if (t->name) {
+                for (i = 0; hexfam[i]; i++) {
+                    if (!strcmp(t->name, hexfam[i])) {
+                        if (in_union) return 0;
+                        sb_str(s, "t:ietf-yang-types:"); sb_str(s, t->name); return 1;
+                    }
+                }
+                /* other derived types of ietf-*-types have plug-ins of their own */
+                if (strstr(t->name, "address") || strstr(t->name, "prefix") || strstr(t->name, "time") || strstr(t->name, "date") || strstr(t->name, "xpath")) return 0;
+            }
+            sb_str(s, "pstr"); desc_range(s, st->length, 1);
+            if (!st->length) sb_str(s, ":");
+            sb_str(s, ":");
+            LY_ARRAY_FOR(st->patterns, u) {
+                if (u) sb_str(s, ";");
+                if (st->patterns[u]->inverted) sb_str(s, "!");
+                sb_hex(s, st->patterns[u]->expr);
+            }
+            return 1;
+        }
         sb_str(s, "str"); desc_range(s, st->length, 1); return 1;
     }
+    case LY_TYPE_BINARY:
+        if (in_union) return 0;
+        sb_str(s, "bin"); desc_range(s, ((struct lysc_type_bin *)t)->length, 1); return 1;
+    case LY_TYPE_EMPTY:
+        if (in_union) return 0;
+        sb_str(s, "empty"); return 1;
     case LY_TYPE_ENUM: case LY_TYPE_BITS: {
         const struct lysc_type_enum *e = (const struct lysc_type_enum *)t; char b[32];
         sb_str(s, t->basetype == LY_TYPE_ENUM ? "enum:" : "bits:");
@@ -417,7 +444,7 @@ main(void)
                 ser_schema(&a, NULL, mods[i]->compiled, 0); ser_schema(&b, NULL, mods[i]->compiled, LYS_GETNEXT_OUTPUT);
                 ser_tschema(&ta, NULL, mods[i]->compiled, 0); ser_tschema(&tb, NULL, mods[i]->compiled, LYS_GETNEXT_OUTPUT);
             }
-            for (k = 0; k < ntdescs; k++) { if (k) sb_str(&td, ";"); sb_str(&td, tdescs[k].p); }
+            for (k = 0; k < ntdescs; k++) { if (k) sb_str(&td, "~"); sb_str(&td, tdescs[k].p); }
             vp_reply(id, "ok %s %s %s %s %s", a.n ? a.p : "-", b.n ? b.p : "-", ta.n ? ta.p : "-", tb.n ? tb.p : "-", td.n ? td.p : "-");
             free(a.p); free(b.p); free(ta.p); free(tb.p); free(td.p);
         } else if (!ctx) {
